@@ -563,6 +563,12 @@ class MiniEval:
             if isinstance(recv, tuple) and f.attr in ('index', 'count'):
                 return getattr(recv, f.attr)(*args, **kwargs)
             raise Unsupported(f'method call .{f.attr} on {type(recv).__name__}')
+        if isinstance(f, (ast.Call, ast.Subscript, ast.IfExp)):
+            fv = self.expr(f, env)
+            if isinstance(fv, tuple) and fv[:1] == ('<func>',):
+                return self.as_callable(fv)(*args, **kwargs)
+            if callable(fv) and (not isinstance(fv, type) or fv in _BUILTIN_TYPES.values()):
+                return fv(*args, **kwargs)
         raise Unsupported('call form')
 
 
